@@ -675,6 +675,9 @@ class Circuit:
         self._simtask = asyncio.current_task()
         started_blocks = set()
         start_ok = False
+        # wait_init() needs the _init_done also when the start fails
+        self.sblock_queue = asyncio.Queue()
+        self._init_done = asyncio.Event()
         try:
             if self._error is not None:
                 raise self._error       # stop before start
@@ -682,8 +685,6 @@ class Circuit:
                 raise EdzedCircuitError("The circuit is empty")
 
             self.log_debug("Initializing the circuit")
-            self.sblock_queue = asyncio.Queue()
-            self._init_done = asyncio.Event()
             self._check_persistent_data()
             self._resolver.resolve()
             self.finalize()
